@@ -611,7 +611,7 @@ func tableBase(v ssa.Value) (*ssa.Global, []int, bool) {
 // R2.23 [C02]
 func ruleFixedTableIndex(c *eng.Ctx) {
 	const R = "R2.23-FIXED-TABLE-INDEX"
-	c.Rule(R, "an element of a package-level table (array or slice literal that nothing reassigns) is selected only with an index proven inside the literal's length: a constant, the index of a range over the table, a value compared with the length or with constants, a remainder, quotient, mask or shift whose range fits, or a byte for a 256-entry table. A number from the document that is larger than the table panics otherwise", 4, 1)
+	c.Rule(R, "an element of a package-level table (array or slice literal that nothing reassigns) is selected only with an index proven inside the literal's length: a constant, the index of a range over the table, a value compared with the length or with constants, a remainder, quotient, mask or shift whose range fits, or a byte for a 256-entry table. A number from the document that is larger than the table panics otherwise", 1, 1)
 	boundedProg = c.P
 	n := 0
 	for _, fn := range c.P.ModuleFuncs() {
@@ -643,12 +643,15 @@ func ruleFixedTableIndex(c *eng.Ctx) {
 				bt = pt.Elem().Underlying()
 			}
 			if at, isArr := bt.(*types.Array); isArr {
-				// an array of any origin: the length is in the type
-				L, gname = int(at.Len()), "the array "+base.Name()
+				// an array that is a package-level table or a table held in a field: the length is in the type (a local
+				// buffer that the function fills itself is not a table of the program)
+				L = int(at.Len())
 				if g, _, ok := tableBase(base); ok {
 					gname = g.Name()
 				} else if fr, ok := eng.AsField(base); ok {
 					gname = "the array ." + fr.Field
+				} else {
+					return
 				}
 			} else {
 				g, path, ok := tableBase(base)
@@ -3029,7 +3032,8 @@ func ruleDepthCountersBalanced(c *eng.Ctx) {
 				if k, isC := eng.ConstInt(b.Y); !isC || k != 1 {
 					return
 				}
-				if f2, ok := eng.LoadOfField(b.X); !ok || f2.Field != fr.Field {
+				// the same counter is read and written (x.depth++), not a new record made one level deeper
+				if f2, ok := eng.LoadOfField(b.X); !ok || f2.Field != fr.Field || !eng.SameValue(f2.Base, fr.Base) {
 					return
 				}
 				fields[fr.Field] = true
